@@ -64,6 +64,14 @@ def inRange (dst : String) (ops : Subs) : Bool :=
   let lim : Int := if dst = "stl" then 86400000000000 else 360000000000000
   (viewOf ops).all fun c => decide (0 ≤ c.startAt) && decide (0 ≤ c.endAt) && decide (c.startAt < lim) && decide (c.endAt < lim)
 
+/-- text the destination can carry: the plain repertoire every format carries (`simpleText`, the class of the
+    `conv_all` theorems), and for the destinations that escape markup characters (SubRip, WebVTT, TTML) also
+    `&`, `<`, `>` and `;` — so that a text which spells an entity (`&lt;`, `a & b`) is compared as well -/
+def textFor (dst : String) (s : Str) : Bool :=
+  simpleText s ||
+    ((dst = "srt" || dst = "vtt" || dst = "ttml") &&
+      s.all fun c => simpleText [c] || c = '&' || c = '<' || c = '>' || c = ';')
+
 def convOk (strict : Bool) (dst : String) (ops : Subs) (back : Subs) : Bool :=
   let v := viewOf ops
   let w := viewOf back
@@ -75,7 +83,7 @@ def convOk (strict : Bool) (dst : String) (ops : Subs) (back : Subs) : Bool :=
   v.length == w.length &&
     (List.zip v w).all fun (a, b) =>
       b.startAt == tr a.startAt && b.endAt == tr a.endAt &&
-        (!(textDst && !a.blank && a.lines.all simpleText && !a.lines.isEmpty) || a.lines == b.lines)
+        (!(textDst && !a.blank && a.lines.all (textFor dst) && !a.lines.isEmpty) || a.lines == b.lines)
 
 def opRefusedByCLI (ops : List String) : Bool :=
   match ops with
